@@ -68,6 +68,10 @@ def gpg_mutations(rng, signed):
     r = rng.random()
     def j(ls):
         return '\n'.join(ls)
+    if r < 0.07 and '' in lines:
+        # white space on the line that separates the armor headers from the signed text (gpg still takes it for the separator)
+        i = lines.index('')
+        return 'separator-padded', j(lines[:i] + [rng.choice([' ', '\t', '  \t ', '\r', ' \r'])] + lines[i + 1:])
     if r < 0.12:
         i = rng.randrange(len(lines))
         return 'trailing-ws', j(lines[:i] + [lines[i] + rng.choice([' ', '\t', '  ', ' \t', '\r', '\x0c', '\xa0', '\x0b'])] + lines[i + 1:])
@@ -222,6 +226,9 @@ def run(ctx):
             bases.append(gpgutil.clearsign(env, plain))
         # a base whose cleartext needs dash-escaping
         bases.append(gpgutil.clearsign(env, 'DATA a 0\nIGNORE -x\n'))
+        # bases whose signed text holds empty lines (legal in a Manifest, skipped by the parser)
+        bases.append(gpgutil.clearsign(env, 'TIMESTAMP 2020-01-01T00:00:00Z\nDATA a 0\n\nDATA b 1 MD5 aa\nIGNORE c\n'))
+        bases.append(gpgutil.clearsign(env, 'DATA a 0\n\n\nDATA b 0\n\nDATA c 0\n'))
         for s in bases:
             gpg_case(ctx, drv, env, 'genuine', s)
             compare(ctx, drv, s, 'stringio', 'genuine-signed')
